@@ -88,3 +88,26 @@ Definition e2e_ok (c : list (list (nat * cell)) * N * bytes * list nat) : bool :
   let '(bs, o, l, obs) := c in list_eqb Nat.eqb (sort_nat (e2e_answer bs o l)) obs.
 Definition check_e2e (cs : list (list (list (nat * cell)) * N * bytes * list nat)) : list nat :=
   idx_false (map e2e_ok cs) 0.
+
+(* 8. getLastRecord() per column after every record of a block (hook on AfterWritingToSegment, real ingest path):
+   the model walks the block with one colwip per column seen so far; a column that shows up in the middle of
+   the block is back-filled for the earlier records first *)
+Fixpoint wlookup {A} (k : bytes) (l : list (bytes * A)) : option A :=
+  match l with [] => None | (a, b) :: r => if bytes_eqb a k then Some b else wlookup k r end.
+Definition wstate := list (bytes * colwip).
+Definition wstep (nprev : nat) (st : wstate) (ev : list (bytes * wcell)) : wstate :=
+  map (fun kc => (fst kc, cw_step (snd kc) (wlookup (fst kc) ev))) st
+  ++ map (fun kv => (fst kv, cw_step (fold_left cw_step (repeat None nprev) cw_empty) (Some (snd kv))))
+         (filter (fun kv => match wlookup (fst kv) st with Some _ => false | None => true end) ev).
+Definition windows_match (st : wstate) (obs : list (bytes * bytes)) : bool :=
+  forallb (fun kc => match wlookup (fst kc) obs with
+                     | Some w => bytes_eqb w (cw_last (snd kc))
+                     | None => false
+                     end) st.
+Fixpoint wblock (nprev : nat) (st : wstate) (evs : list (list (bytes * wcell) * list (bytes * bytes))) : bool :=
+  match evs with
+  | [] => true
+  | (ev, obs) :: r => let st' := wstep nprev st ev in windows_match st' obs && wblock (S nprev) st' r
+  end.
+Definition check_window (blocks : list (list (list (bytes * wcell) * list (bytes * bytes)))) : list nat :=
+  idx_false (map (wblock O []) blocks) 0.
